@@ -42,6 +42,9 @@ EVENTS = [
     ("read-error-in-sq", "abort-fail", "zs = 'abc"),
     ("read-error-in-dq", "abort-fail", "zs = \"abc"),
     ("read-error-plain", "abort-fail", "zi = 1\n"),
+    ("read-error-then-syntax-error", "abort-fail", "}"),            # the stream fails while the offending token is still pending
+    ("read-error-then-unknown-name", "abort-fail", "zi = 1\nzzz"),
+    ("read-error-then-bad-value", "abort-fail", "zi = x1"),
     ("accepted-from-file", "parsefile", "single { x = 9 }\nsec ft { y = file }\n"),
     ("reinit", "reinit", None),
     ("switch", "switch", None),
